@@ -190,12 +190,33 @@ def write_cases(path: str, cases: list[dict]) -> None:
         json.dump({"cases": cases}, f, separators=(",", ":"))
 
 
+def failing_write(r: random.Random, p: dict, recs: list[dict]) -> str:
+    """A write that fails part-way - because of a value (a str where bytes are expected, somewhere after
+    the first record) or because the sink raises at some write - and is handled by the caller.  Its own
+    outcome is not judged; what the NEXT batch looks like is."""
+    import dataclasses
+    from kio.records.writers import write_batch
+    batch = build_new_batch(p, recs)
+    try:
+        if r.random() < 0.5:
+            bad = dataclasses.replace(batch.records[-1], value="not bytes")
+            batch = dataclasses.replace(batch, records=batch.records + (bad,))
+            write_batch(RecSink(), batch)
+        else:
+            write_batch(RecSink(fail_at=r.choice([1, 2, 3, 5, 8])), batch)
+        return "no failure"
+    except BaseException as e:  # noqa: BLE001
+        return type(e).__name__
+
+
 def gen_new_shard(args) -> dict:
     path, lo, hi, seed = args
     cases = []
     for i in range(lo, hi):
         r = random.Random(seed * 7919 + i)
         p, recs = sample_new_batch(r, big_ok=(i % 40 == 0))
+        if i % 3 == 1:
+            failing_write(r, *sample_new_batch(random.Random(seed + i), big_ok=False))
         cases.append(new_case(f"n{i}", p, recs))
     write_cases(path, cases)
     return {"path": path, "cases": len(cases)}
